@@ -32,16 +32,22 @@ Theorem rollback_restores_earlier : forall E h1 h2 k,
 Proof. exact rollback_restores_earlier_proof. Qed.
 Print Assumptions rollback_restores_earlier.
 
-(* replay form.  PARTIAL: proved when the remaining calls l contain no rollback of their own
-   (then "the state obtained by applying only the operations that remain" is literally
-   replay l init); the general form Proofs_C17.backtrack_is_replay_statement additionally needs
-   that API calls respect ≈w, which is not proved. *)
-Theorem backtrack_is_replay_partial : forall E l h2 k,
-  WF E (map C l ++ h2) -> k = length (plan (replay E l init)) ->
-  (forall k', In (R k') h2 -> k <= k') ->
-  exists s', backtrack E k (run E (map C l ++ h2) init) = (s', Ok tt) /\ equiv s' (replay E l init).
-Proof. exact backtrack_is_replay_partial_proof. Qed.
-Print Assumptions backtrack_is_replay_partial.
+(* replay form, full: for every well-formed history, with rollbacks nested arbitrarily (the
+   surviving prefix may itself contain rollbacks), the state is ≈w the state obtained by applying
+   only the operations that remain ([surviving]) to the empty planner state.  ≈w = all observable
+   components equal as per-key multisets and the same plan position; the plan entries themselves
+   may differ in the logging order of the nested decrefs of a remove/replace. *)
+Theorem backtrack_is_replay : forall E h,
+  WF E h -> equivw (run E h init) (replay E (surviving E h) init).
+Proof. exact backtrack_is_replay_proof. Qed.
+Print Assumptions backtrack_is_replay.
+
+(* the lemma behind it: well-formed API calls respect ≈w (and well-formedness itself does) *)
+Theorem call_respects_equivw : forall E s1 s2 a,
+  Inv E s1 -> equivw s1 s2 -> wf_api_b E s1 a = true ->
+  wf_api_b E s2 a = true /\ equivw (call_s E a s1) (call_s E a s2).
+Proof. exact call_respects_equivw_proof. Qed.
+Print Assumptions call_respects_equivw.
 
 (* backtrack respects ≈ — every operation, failing reverts and their partial states included *)
 Theorem backtrack_respects_equiv : forall E k s1 s2, equiv s1 s2 ->
